@@ -156,6 +156,27 @@ func (p *Printer) renderRUF(t *Term) string {
 		rs.witnesses[r] = true
 		return r
 	case OSIntToF, OUIntToF:
+		// pattern float -> int (truncation) -> float: the result is the integer part of y
+		// (exact below 2^31; L8), expressed with an Int witness
+		if src := t.Args[0]; t.Op == OSIntToF {
+			for src.Op == OSExt || src.Op == OExtract {
+				src = src.Args[0]
+			}
+			if src.Op == OFToSInt {
+				y := p.ref(src.Args[0])
+				rs.intVars++
+				k := fmt.Sprintf("k!%d", rs.intVars)
+				p.declareRaw(k, "() Int")
+				r := fmt.Sprintf("(to_real %s)", k)
+				lim := "2147483648.0"
+				if src.S.W >= 64 {
+					lim = "9007199254740992.0" // exact-integer range of float64 (2^53)
+				}
+				rs.lemma(p, "L8", fmt.Sprintf("(=> (and (< %s "+lim+") (> %s (- "+lim+"))) (ite (>= %s 0.0) (and (<= %s %s) (< %s (+ %s 1.0))) (and (>= %s %s) (> %s (- %s 1.0)))))", y, y, y, r, y, y, r, r, y, y, r))
+				rs.witnesses[r] = true
+				return r
+			}
+		}
 		n := fmt.Sprintf("i2f_%d_%d", t.Op, t.Args[0].S.W)
 		p.declareRaw(n, fmt.Sprintf("((_ BitVec %d)) Real", t.Args[0].S.W))
 		p.UsedUF[n]++
